@@ -10,6 +10,7 @@ import (
 	"verifharness/drv/c05"
 	"verifharness/drv/c11"
 	"verifharness/drv/c14"
+	"verifharness/drv/c15"
 	"verifharness/drv/c18"
 	"verifharness/drv/c20"
 	conndrv "verifharness/drv/conn"
@@ -22,6 +23,7 @@ var cmds = map[string]func([]string) error{
 	"c05": c05.Main,
 	"c11": c11.Main,
 	"c14": c14.Main,
+	"c15": c15.Main,
 	"c18": c18.Main,
 	"c20": c20.Main,
 	"conn": conndrv.Main,
